@@ -76,8 +76,8 @@ package xmss
 
 //@ func IsValidXMSSAddress
 //@   names address:[20]uint8 |  | d:*xmss.QRLDescriptor
-//@   props C14 C11 C15 C16
-//@   ensures[C11,C16] result <==> (address[0] / 16 == 0 && address[1] / 16 == 0)
+//@   props C14 C11 C15 C16 C09
+//@   ensures[C11,C16,C09] result <==> (address[0] / 16 == 0 && address[1] / 16 == 0)
 
 // ---- hash.go ----
 
@@ -385,11 +385,11 @@ package xmss
 
 //@ func GetLegacyXMSSAddressFromPK
 //@   names ePK:[67]uint8 |  | desc:*xmss.QRLDescriptor address:[39]uint8 addressOffset:int descBytes:[3]uint8 i:int@1i hashedKey:[32]uint8 i:int@2i hashedKey2:[32]uint8 hashedKey2Offset:int i:int@3i
-//@   props C14 C11 C15
+//@   props C14 C11 C15 C09
 //@   panics "Address format type not supported" when ePK[1] / 16 != 0
-//@   ensures[C11] result[0] == ePK[0] && result[1] == ePK[1] && result[2] == 0
-//@   ensures[C11] forall q :: 0 <= q && q < 32 ==> result[3+q] == spec.sha256(spec.sub(ePK[0:], 67), 67, q)
-//@   ensures[C11] forall q :: 0 <= q && q < 4 ==> result[35+q] == spec.sha256(spec.sub(result[0:], 35), 35, 28+q)
+//@   ensures[C11,C09] result[0] == ePK[0] && result[1] == ePK[1] && result[2] == 0
+//@   ensures[C11,C09] forall q :: 0 <= q && q < 32 ==> result[3+q] == spec.sha256(spec.sub(ePK[0:], 67), 67, q)
+//@   ensures[C11,C09] forall q :: 0 <= q && q < 4 ==> result[35+q] == spec.sha256(spec.sub(result[0:], 35), 35, 28+q)
 //@   loop 1 invariant 0 <= i && i <= 3 && forall k_ :: 0 <= k_ && k_ < i ==> address[k_] == descBytes[k_]
 //@   loop 2 invariant 0 <= i && i <= 32 && addressOffset == 3 && forall k_ :: 0 <= k_ && k_ < 3 ==> address[k_] == descBytes[k_]
 //@   loop 2 invariant forall k_ :: 0 <= k_ && k_ < i ==> address[3+k_] == hashedKey[k_]
@@ -771,3 +771,28 @@ package xmss
 //@   props C09
 //@   requires !isnil(x) && !isnil(x.desc)
 //@   ensures[C09] strof(m1) == strof(m2)
+
+//@ func XMSS.GetAddress
+//@   names x:*xmss.XMSS |  | 
+//@   inline
+//@ func XMSS.GetLegacyAddress
+//@   names x:*xmss.XMSS |  | 
+//@   inline
+//@ func XMSS.GetHeight
+//@   names x:*xmss.XMSS |  | 
+//@   inline
+//@ func XMSS.GetSK
+//@   names x:*xmss.XMSS |  | 
+//@   inline
+//@ func XMSS.GetHexSeed
+//@   names x:*xmss.XMSS |  | eSeed:[51]uint8
+//@   inline
+//@ func verifLemmaObjectGetters
+//@   names seed:[48]uint8 height:uint8 hashFunction:xmss.HashFunction | x:*xmss.XMSS a1:[20]uint8 a2:[20]uint8 l1:[39]uint8 l2:[39]uint8 okX:bool h:uint8 sk:[]uint8 hs1:string hs2:string | e:[51]uint8
+//@   props C09
+//@   requires 4 <= height && height <= 30 && height % 2 == 0 && hashFunction < 16
+//@   ensures[C09] a1[0:20] == a2[0:20]
+//@   ensures[C09] l1[0:LegacyAddressSize] == l2[0:LegacyAddressSize]
+//@   ensures[C09] okX && a1[0] != 16
+//@   ensures[C09] h == height
+//@   ensures[C09] len(sk) == 132 && sk[0:132] == x.sk[0:132]
